@@ -92,6 +92,9 @@ def parse_arm64(text):
         m = re.fullmatch(r"movz (\w+), #0x([0-9a-fA-F]+)", t)
         if m:
             out.append(["movz", m.group(1), int(m.group(2), 16)]); continue
+        m = re.fullmatch(r"movn (\w+), #0x([0-9a-fA-F]+)", t)
+        if m:
+            out.append(["movn", m.group(1), int(m.group(2), 16)]); continue
         m = re.fullmatch(r"movk (\w+), #0x([0-9a-fA-F]+), lsl #(\d+)", t)
         if m:
             out.append(["movk", m.group(1), int(m.group(2), 16), int(m.group(3))]); continue
